@@ -858,6 +858,7 @@ def t3_conc(res, tier, broken):
     cov = collections.Counter()
     ops = collections.Counter()
     per_cfg = collections.Counter()
+    ops_cfg = collections.defaultdict(collections.Counter)
     transitions = set()
     nruns = [0]
 
@@ -891,14 +892,23 @@ def t3_conc(res, tier, broken):
                     rep["stderr"] = r["stderr"]
                     if r.get("monitor"):
                         rep["monitor"] = r["monitor"]
+                    import signal as _sig
+                    if r["rc"] < 0 and r["rc"] != -999:
+                        try:
+                            why = "the runtime crashed: killed by %s" % _sig.Signals(-r["rc"]).name
+                        except ValueError:
+                            why = "the runtime crashed: killed by signal %d" % -r["rc"]
+                    else:
+                        why = vs.RC_TEXT.get(r["rc"], "scenario exited with rc=%d" % r["rc"])
                     what = "%s pool, access %s, under concurrent producers/consumers: %s: %s" % (
-                        rep["kind"], rep["access"].upper(), vs.RC_TEXT.get(r["rc"], "scenario crashed rc=%d" % r["rc"]), last)
+                        rep["kind"], rep["access"].upper(), why, last)
                     first = ("concrete", what, rep)
                     continue
                 per_cfg["%s/%s" % (rep["kind"], rep["access"])] += 1
                 info = r.get("info", {})
                 for k, v in info.get("ops", {}).items():
                     ops[k] += v
+                    ops_cfg["%s/%s" % (rep["kind"], rep["access"])][k] += v
                 for k in ("calls_started_while_another_in_progress", "preempted_after_precheck", "tas_failed", "empty_seen_lock_free"):
                     cov[k] += info.get(k, 0)
                 if info.get("calls_started_while_another_in_progress", 0) > 0:
@@ -937,7 +947,7 @@ def t3_conc(res, tier, broken):
         res.violation("C07 violated: " + r[1], r[2])
     res.add_cov(conc_programs_and_schedules=sizes["search" if searched else tier], conc_runs=nruns[0], conc_workers=workers,
                 conc_outcomes={str(k): v for k, v in outcomes.items()}, conc_runs_per_kind_access=dict(sorted(per_cfg.items())),
-                conc_ops=dict(ops), conc_counters=dict(cov), conc_model_transitions_exercised=len(transitions),
+                conc_ops=dict(ops), conc_ops_per_kind_access={k: dict(v) for k, v in sorted(ops_cfg.items())}, conc_counters=dict(cov), conc_model_transitions_exercised=len(transitions),
                 conc_model_transitions=sorted(transitions), conc_search_focus=[[CKINDS[k], CACCESS[a]] for k, a in hot] if searched else [])
 
 
@@ -992,6 +1002,9 @@ def run(res, tier, broken):
         conc(res, tier, broken)
     finally:
         drop_private_driver()
+    if broken:
+        res.cov["broken_obligations"] = [{k: (v if k not in ("errors", "replay") else (v[:6] if k == "errors" else {"params": v.get("params"), "seed": v.get("seed"), "mode": v.get("mode")}))
+                                          for k, v in b.items()} for b in broken]
     res.add_cov(programs=res.cov.get("tq_programs", 0) + res.cov.get("pool_programs", 0), disagreements_checked=n1 + n2)
 
 
